@@ -6,6 +6,7 @@ mod c07;
 mod c08;
 mod c12;
 mod c16;
+mod c17;
 mod c19;
 mod c20;
 mod ledger;
@@ -25,6 +26,7 @@ fn main() {
         "c08" => c08::run(&args[2..]),
         "c12" => c12::run(&args[2..]),
         "c16" => c16::run(&args[2..]),
+        "c17" => c17::run(&args[2..]),
         "c19" => c19::run(&args[2..]),
         "c20" => c20::run(&args[2..]),
         "c01" | "c02" | "c03" | "ledger" => ledger::run(&args[2..]),
